@@ -59,6 +59,7 @@ class VKernel:
             self.procs[p["pid"]] = {"kind": p["kind"], "exit": unq(p["exit"]), "status": status_word(p["status"]),
                                     "eintr": eintr_map(p["eintr"]), "ncalls": 0, "reaped": False, "infs": True}
         self.sleeps = []
+        self.kills = []
         self.ops = 0
 
     # ---- clock
@@ -130,6 +131,15 @@ class VKernel:
             p["infs"] = False
         return (pid, p["status"])
 
+    def kill(self, pid, sig):
+        """os.kill: succeeds (and changes nothing: the exit schedule is fixed) while the PID is in the
+        process table -- running or a zombie waiting to be reaped -- else ESRCH"""
+        self.sync()
+        p = self.procs.get(pid)
+        if p is None or not p["infs"]:
+            raise ProcessLookupError(3, "No such process")
+        self.kills.append((pid, int(sig)))
+
     def pid_exists(self, pid):
         self.ops += 1
         if self.ops > 20000:
@@ -155,13 +165,14 @@ class Patched:
         from psutil import _psposix
         vk = self.vk
         self.saved = (os.waitpid, time.monotonic, time.time, time.sleep, psutil._timer, _psposix.wait_pid.__defaults__,
-                      _psposix.pid_exists)
+                      _psposix.pid_exists, os.kill)
         d = list(_psposix.wait_pid.__defaults__)
         # (timeout, proc_name, _waitpid, _timer, _min, _sleep, _pid_exists)
         d[2], d[3], d[5], d[6] = vk.waitpid, vk.timer, vk.sleep, vk.pid_exists
         _psposix.wait_pid.__defaults__ = tuple(d)
         _psposix.pid_exists = vk.pid_exists
         os.waitpid = vk.waitpid
+        os.kill = vk.kill
         time.monotonic = vk.timer
         time.time = vk.timer
         time.sleep = vk.sleep
@@ -172,7 +183,7 @@ class Patched:
         import psutil
         from psutil import _psposix
         (os.waitpid, time.monotonic, time.time, time.sleep, psutil._timer, _psposix.wait_pid.__defaults__,
-         _psposix.pid_exists) = self.saved
+         _psposix.pid_exists, os.kill) = self.saved
         return False
 
 
@@ -207,6 +218,26 @@ def _res(fn):
     if isinstance(r, int) and not isinstance(r, bool):
         return T("Int", int(r))
     return T("Value", repr(r))
+
+
+OTHER_CALLS = ("is_running", "kill", "terminate", "send_signal", "suspend", "resume", "children", "name", "status",
+               "ppid", "parent", "cpu_times", "as_dict")
+
+
+def other_call(proc, name):
+    """an interposed public call on the object between two wait()s; whatever it answers or raises is its own
+    business (C01-C06) -- C15 only demands that it leaves the memoised wait() result alone"""
+    import signal
+    import psutil
+    try:
+        if name == "send_signal":
+            proc.send_signal(signal.SIGTERM)
+        elif name == "as_dict":
+            proc.as_dict(attrs=["name", "status", "ppid"])
+        else:
+            getattr(proc, name)()
+    except (psutil.Error, OSError, ValueError):
+        pass
 
 
 def run_decode(word):
@@ -249,6 +280,10 @@ def run_wait(case, env, mode):
         for op in case["ops"]:
             if op[0] == "advance":
                 vk.advance(unq(op[1]))
+                continue
+            if op[0] == "call":
+                if proc is not None:
+                    other_call(proc, op[1])
                 continue
             n0 = len(vk.sleeps)
             tm = _tm_arg(op[1], mode)
@@ -340,6 +375,19 @@ def run_procs(case, env, mode):
     cb = {"none": None, "ok": callback, "bad": 1}[case["cb"]]
     tm = _tm_arg(case["timeout"], mode)
     res = {}
+    # objects that were already waited for (their process had ended before), then used through other calls
+    pre_bad = []
+    with Patched(vk):
+        for i in case.get("prewait", []):
+            r0 = _res(lambda: objs[i].wait())
+            want = T("Int", spec_code(ps[i]["status"])) if ps[i]["kind"] == "child" else None
+            if r0 != want:
+                pre_bad.append("pre-wait of process %d returned %r, expected %r" % (i, r0, want))
+            for nm in case.get("inter", []):
+                other_call(objs[i], nm)
+    if vk.sleeps or vk.clock != unq(case["start"]):
+        pre_bad.append("pre-wait of an ended process slept or took time")
+    del vk.sleeps[:]
     psutil.Process.wait = rec_wait
     try:
         with Patched(vk):
@@ -372,6 +420,8 @@ def run_procs(case, env, mode):
            "ret": q(vk.clock), "waits": waits}
     if not shape_ok:
         res["exc"] = T("BadShape")
+    if pre_bad:
+        res["exc"] = T("PreWait", "; ".join(pre_bad))
     return res
 
 
@@ -452,6 +502,8 @@ def spec_ops(case, obs, strict=True, tol=0):
     for op in case["ops"]:
         if op[0] == "advance":
             t += unq(op[1])
+            continue
+        if op[0] == "call":
             continue
         if j >= len(obs):
             fails.append("missing observation")
